@@ -274,13 +274,14 @@ func (s *Sched) kill(p *Proc) {
 }
 
 type LockVerdict struct {
-	Violation    string
-	What         string
-	Trace        []string
-	Entered      int
-	Kills        int
-	Steps        int
-	Inconclusive string
+	Violation      string
+	What           string
+	Trace          []string
+	Entered        int
+	Kills          int
+	FairnessForced int
+	Steps          int
+	Inconclusive   string
 }
 
 // RunLockSchedule runs one randomly scheduled contention scenario.
@@ -367,6 +368,22 @@ func RunLockSchedule(r *rng.R, dir, probe string, nprocs int, preExisting string
 		current = p.ID
 		if p.Tries > 14 {
 			b, _ := os.ReadFile(lockFile)
+			// Waiting is correct while the lock file names a live contender the scheduler itself
+			// is holding back: that is an unfair schedule, not a stuck lock. Run the owner instead.
+			var owner *Proc
+			for _, e := range enabled {
+				if e != p && e.cmd.Process != nil && fmt.Sprint(e.cmd.Process.Pid) == strings.TrimSpace(string(b)) {
+					owner = e
+				}
+			}
+			if owner != nil {
+				current = owner.ID
+				p.Tries = 0
+				v.FairnessForced++
+				s.release(owner)
+				v.Steps++
+				continue
+			}
 			v.Violation = "contender-never-acquires lock-file=" + classifyLock(string(b), s)
 			v.What = fmt.Sprintf("%s tried 14 times without acquiring; lock file content %q; states %s", p.ID, string(b), s.states())
 			v.Trace = s.Trace
